@@ -363,6 +363,19 @@ def link_loop(ctx, cfg, body, lp, info, role, rule):
                     src_ok = bool(room)
                 else:
                     det = "position field '%s' of owner %s; slots iterate that owner's storage: %s" % (o["names"][fidx], adt.split("::")[-1], src_ok)
+                    if src_ok and lp.pipe is not None:
+                        from .ownership import lockstep, HIGH_POS as _HP
+                        if o["array_is_ref"]:
+                            mine = [s_ for s_ in slices_of(lp.pipe) if arrp is not None and s_[3][1] == arrp[1]]
+                        else:
+                            mine = [s_ for s_ in slices_of(lp.pipe) if s_[3][1] == ("field", obase, (o["array"],))]
+                        v0_ = initial_cell_value(a, lp, obase, (fidx,))
+                        pv = ("I", v0_) if v0_ is not None else None
+                        lt_ = a.local_ty(obase[1]) if obase[0] == "local" else None
+                        ta_ = [x for x in lt_["args"] if x.get("k") != "region"] if lt_ is not None and lt_.get("k") == "adt" else []
+                        ls_ok, ls_det = lockstep(a, [lp.pipe], mine, pv, role, role == "consumer" and (bool(lp.backward) != bool(find_in(lp.pipe, lambda t: isinstance(t, tuple) and len(t) >= 3 and t[0] == "V" and t[1] == "iter" and t[2] == "rev"))), lp.nxt.facts, obase[0] == "local", a.tenv.size(ta_[0]) if ta_ else None)
+                        det += "; " + ls_det
+                        src_ok = src_ok and ls_ok
                 # which end of the claimed range moves, and which way (see ownership.link_closure)
                 from .ownership import LOW_POS, HIGH_POS
                 pname = o["names"][fidx]
